@@ -10,6 +10,10 @@
 (*               between (the key lock makes fetch-check-store atomic)     *)
 (*   ReadLatest: a fetch returns the record written by the latest store    *)
 (*   Monotone  : records never move backwards                              *)
+(*   SignAfterStore: an actor that has read a key's record and not yet     *)
+(*               written it does not sign with that key (single requests   *)
+(*               sign in the goroutine that ran the rules; the order       *)
+(*               record-then-sign of C03 as the program itself logs it)    *)
 (* A rejection is reported as DRIFT (the tests' own assertions may be too  *)
 (* weak to notice; the recorded steps are not).                            *)
 (***************************************************************************)
@@ -41,11 +45,16 @@ Store == /\ Is("S")
             /\ cur' = Put(cur, Ev.k, v)
             /\ ver' = Put(ver, Ev.k, IF known THEN ver[Ev.k] + 1 ELSE 1)
             /\ seen' = [x \in (DOMAIN seen) \ {<<Ev.g, Ev.k>>} |-> seen[x]]    \* the actor's read is consumed by its write
-Next == Begin \/ Fetch \/ Store
+\* the account's signing primitive is entered by actor g for the key with base name b (records b+"a", b+"p")
+Sign == /\ Is("G")
+        /\ bad' = bad \cup (IF \E x \in DOMAIN seen : x[1] = Ev.g /\ x[2] \in {Ev.b \o "a", Ev.b \o "p"} THEN {<<"sign-before-store", l>>} ELSE {})
+        /\ UNCHANGED <<cur, ver, seen>>
+Next == Begin \/ Fetch \/ Store \/ Sign
 Spec == Init /\ [][Next]_vars
 HighWater == TLCSet(1, IF l > TLCGet(1) THEN l ELSE TLCGet(1))
 Accepted == TLCGet(1) = Len(Trace) + 1
 AtomicRMW == \A b \in bad : b[1] \notin {"interleaved-store", "store-without-fetch"}
 ReadLatest == \A b \in bad : b[1] # "stale-read"
 Monotone == \A b \in bad : b[1] # "backwards"
+SignAfterStore == \A b \in bad : b[1] # "sign-before-store"
 =============================================================================
